@@ -103,3 +103,43 @@ func init() {
 		}
 	}
 }
+
+// RunExpr is a second entry point that compiles text (lazily, in a sub-VM): what the syntax flags disable for Run must be disabled
+// there too.  For each (input, flags): Run on one VM, RunExpr on another VM with the same configuration and generator state.
+func init() {
+	cmds["c16-runexpr"] = func(args []string) {
+		sc := bufio.NewScanner(os.Stdin)
+		sc.Buffer(make([]byte, 1<<20), 1<<26)
+		for sc.Scan() {
+			var in struct {
+				B64   string `json:"b64"`
+				Flags []bool `json:"flags"`
+			}
+			if json.Unmarshal(sc.Bytes(), &in) != nil {
+				continue
+			}
+			raw, _ := base64.StdEncoding.DecodeString(in.B64)
+			cfg := cfgFromFlags(in.Flags)
+			cfg.OpLimit = 20000
+			a := newVM(cfg, 7, 9, true)
+			oa := runScript(a, string(raw), false)
+			b := newVM(cfg, 7, 9, true)
+			row := map[string]any{"run_ok": oa.Ok, "run_str": oa.Str, "run_rest": oa.Rest}
+			func() {
+				defer func() {
+					if r := recover(); r != nil {
+						row["expr_panic"] = fmt.Sprint(r)
+					}
+				}()
+				v, err := b.RunExpr(string(raw), false)
+				if err != nil {
+					row["expr_err"] = err.Error()
+				} else if v != nil {
+					row["expr_ok"] = true
+					row["expr_str"] = v.ToString()
+				}
+			}()
+			emit(row)
+		}
+	}
+}
